@@ -133,7 +133,7 @@ def good_files(reg, rng, quick):
     return files
 
 
-BAD_KINDS = ["below", "above", "wrongtype", "unknownref", "incompatible", "unknownopt", "syntax"]
+BAD_KINDS = ["below", "above", "wrongtype", "unknownref", "incompatible", "unknownopt", "syntax", "refbelow", "refabove"]
 
 
 def bad_files(reg, rng, tokens):
@@ -180,6 +180,19 @@ def bad_files(reg, rng, tokens):
                 bad = ["%s = \"unterminated" % o["name"], "%s = \"a\"b" % o["name"], "%s" % o["name"], "%s =" % o["name"],
                        "%s = tail\\" % o["name"], "set FOR", "set NO_SUCH_TOKEN w", "file_ext NOLANG .q", "file_ext CPP",
                        "using 1", "type", "macro-open", "%s = 'open" % o["name"], "using 1.2.3.4"][i % 14]
+            elif kind == "refbelow":
+                # out of range through a NEGATED reference: the referenced value itself is inside the range
+                if o["bounded"] and o["kind"] in ("num", "unum") and o["name"] not in ("indent_columns",) and o["name"] not in NL_GUARDED_SKIP \
+                        and o["min"] > -4 and o["max"] >= 4:
+                    lines.append(("indent_columns = 4", False))
+                    lines.append(("%s = -indent_columns" % o["name"], True))
+                continue
+            elif kind == "refabove":
+                if o["bounded"] and o["kind"] in ("num", "unum") and o["name"] not in ("code_width",) and o["name"] not in NL_GUARDED_SKIP \
+                        and o["max"] < 10000 and o["max"] >= 0:
+                    lines.append(("code_width = %d" % (o["max"] + 1), False))
+                    lines.append(("%s = code_width" % o["name"], True))
+                continue
             if bad is None:
                 continue
             lines.append((good_line(i), False))
